@@ -1,6 +1,7 @@
 package main
 
 import (
+	"os"
 	"bufio"
 	"encoding/hex"
 	"fmt"
@@ -762,7 +763,6 @@ func readV2Pkt(t *Toks) *psetv2.Pset {
 			f := true
 			in.BlindedIssuance = &f
 		}
-		in.FinalScriptSig = []byte{0x51} // lets Extract run; no updater function looks at it
 		p.Inputs = append(p.Inputs, in)
 	}
 	nout := t.Int()
@@ -874,7 +874,7 @@ func v2Views(p *psetv2.Pset) (string, string, string) {
 		utx = txIssView(tx)
 	}
 	ext := "err"
-	if tx, err := psetv2.Extract(p); err == nil {
+	if tx, err := issExtractTx(p); err == nil {
 		ext = txIssView(tx)
 	}
 	var g []string
@@ -891,6 +891,9 @@ func runIssV2(t *Toks) string {
 	res := "ok"
 	if err != nil {
 		res = "err"
+		if os.Getenv("VERIF_ERRTEXT") != "" {
+			fmt.Fprintln(os.Stderr, "issv2:", err)
+		}
 	}
 	var b sb
 	writeV2Pkt(&b, c.p)
@@ -900,7 +903,17 @@ func runIssV2(t *Toks) string {
 
 var _ = chainhash.HashB
 
-func issExtractTx(p *psetv2.Pset) (*transaction.Transaction, error) { return psetv2.Extract(p) }
+// Extract wants finalized inputs. The final script is set here, after the updater call (which since e4278d0 refuses
+// finalized inputs), and only for the extraction.
+func issExtractTx(p *psetv2.Pset) (*transaction.Transaction, error) {
+	for i := range p.Inputs {
+		if len(p.Inputs[i].FinalScriptSig) == 0 && len(p.Inputs[i].FinalScriptWitness) == 0 {
+			p.Inputs[i].FinalScriptSig = []byte{0x51}
+			defer func(i int) { p.Inputs[i].FinalScriptSig = nil }(i)
+		}
+	}
+	return psetv2.Extract(p)
+}
 
 func init() {
 	gens["issid"] = genIssIDCases
